@@ -197,7 +197,11 @@ class _KexDHBase(Kex):
     def _perform_init(self) -> None:
         """Compute e and send init message"""
 
-        self._dh = DH(self._g, self._p)
+        try:
+            self._dh = DH(self._g, self._p)
+        except ValueError:
+            raise ProtocolError('Invalid kex DH group') from None
+
         self._e = self._dh.get_public()
 
         self._send_init()
@@ -209,7 +213,11 @@ class _KexDHBase(Kex):
             raise ProtocolError('Kex DH f out of range')
 
         assert self._dh is not None
-        return MPInt(self._dh.get_shared(self._f))
+
+        try:
+            return MPInt(self._dh.get_shared(self._f))
+        except ValueError:
+            raise ProtocolError('Invalid kex DH server public key') from None
 
     def _compute_server_shared(self) -> bytes:
         """Compute server shared key"""
@@ -220,7 +228,10 @@ class _KexDHBase(Kex):
         self._dh = DH(self._g, self._p)
         self._f = self._dh.get_public()
 
-        return MPInt(self._dh.get_shared(self._e))
+        try:
+            return MPInt(self._dh.get_shared(self._e))
+        except ValueError:
+            raise ProtocolError('Invalid kex DH client public key') from None
 
     def _perform_reply(self, key: SigningKey, key_data: bytes) -> None:
         """Compute server shared key and send reply message"""
